@@ -74,12 +74,10 @@ func init() {
 		"Assertf": func(fr *frame, a []value) value {
 			i := fr.i
 			id := i.concString(a[0])
-			// message is rendered lazily only if the assertion can fail
-			msg := ""
-			if b, ok := a[1].(bool); !ok || !b {
-				msg = i.showString(a[2])
-			}
-			i.assert(id, a[1], msg)
+			// the message is rendered only for a counterexample, under its model
+			i.pendingMsg = &noteRec{format: i.concString(a[2]), args: a[3].([]value)}
+			i.assert(id, a[1], "")
+			i.pendingMsg = nil
 			return nil
 		},
 		"Fail": func(fr *frame, a []value) value {
@@ -89,7 +87,29 @@ func init() {
 		"Note": func(fr *frame, a []value) value {
 			i := fr.i
 			if len(i.notes) < 64 {
-				i.notes = append(i.notes, i.showString(a[0]))
+				i.notes = append(i.notes, noteRec{format: "%s", args: []value{iface{t: types.Typ[types.String], v: a[0]}}})
+			}
+			return nil
+		},
+		"Notef": func(fr *frame, a []value) value {
+			i := fr.i
+			if len(i.notes) < 64 {
+				args := a[1].([]value)
+				cp := make([]value, len(args))
+				for k, x := range args {
+					// snapshot slices so later mutation does not change the note
+					if itf, ok := x.(iface); ok {
+						if sl, ok := itf.v.([]value); ok {
+							c := make([]value, len(sl))
+							for j := range sl {
+								c[j] = copyVal(sl[j])
+							}
+							x = iface{t: itf.t, v: c}
+						}
+					}
+					cp[k] = x
+				}
+				i.notes = append(i.notes, noteRec{format: i.concString(a[0]), args: cp})
 			}
 			return nil
 		},
